@@ -58,6 +58,25 @@ func (d *jsonDom) Call(e *Engine, st *State, site ssa.CallInstruction, callee *s
 	switch callee.String() {
 	case "strings.ReplaceAll":
 		return one(avSym{tag: "replaced", payload: avTuple(args)})
+	case "strings.Trim", "strings.TrimSpace", "strings.TrimLeft", "strings.TrimRight":
+		// white space around a JSON value is insignificant (RFC 8259 ws = space, tab, line feed, carriage return): a
+		// text trimmed of nothing but those decodes to the same value
+		cut := " \t\n\r"
+		if len(args) == 2 {
+			c, ok := args[1].(avConst)
+			if !ok || c.v.Kind() != constant.String {
+				return nil, false
+			}
+			cut = constant.StringVal(c.v)
+		} else if callee.String() == "strings.TrimSpace" {
+			return nil, false // unicode.IsSpace is wider than JSON's white space
+		}
+		for _, ch := range cut {
+			if !strings.ContainsRune(" \t\n\r", ch) {
+				return nil, false
+			}
+		}
+		return one(avSym{tag: "ws-trimmed", payload: args[0]})
 	case "strings.NewReader":
 		return one(avSym{id: e.fresh(), tag: "reader", payload: args[0], nonNil: true})
 	case "encoding/json.NewDecoder":
@@ -332,6 +351,9 @@ func rulePJSONDecode(p *Program, r *Reporter) {
 // isUnescaped: v is strings.ReplaceAll(piece of the literal, "\\`", "`") (conversions to []byte pass through).
 func (d *jsonDom) isUnescaped(v AV) bool {
 	sy, ok := unwrapIface(v).(avSym)
+	for ok && sy.tag == "ws-trimmed" {
+		sy, ok = unwrapIface(sy.payload).(avSym)
+	}
 	if !ok || sy.tag != "replaced" {
 		return false
 	}
